@@ -11,4 +11,6 @@ rc=${PIPESTATUS[0]}
 echo "RESULT tag=$tag prop=$prop exit=$rc"
 git -C /repo worktree remove --force $wt
 rm -rf /verif/.build/alt-* 2>/dev/null
+# engine binaries and overlays built for the scratch tree (8-hex tag of its path)
+(cd /verif/.build 2>/dev/null && ls | grep -E '\.[0-9a-f]{8}\.' | xargs -r rm -f; ls -d overlay-* 2>/dev/null | grep -E '[0-9a-f]{8}$' | xargs -r rm -rf)
 exit $rc
